@@ -324,7 +324,13 @@ def run_instance(inst):
             a_sampler = None
     if a_sampler is not None and fingerprint(m) == fp0:
         s = a_sampler
-        base_rows = s.sample(3, fluxes=False).values
+        try:
+            base_rows = s.sample(3, fluxes=False).values
+        except Exception as e:     # the sampler failed on a model it had accepted
+            out.append(dict(base, kind="sample", py_codes=[8], refused="%s: %s" % (type(e).__name__, str(e)[:200]),
+                            config={"method": "achr", "api": "object", "n": 3, "thinning": int(s.thinning),
+                                    "seed": None, "processes": 1, "fluxes": False, "nproj": int(s.nproj)}))
+            return out
         for varspace in (False, True):
             rows = []
             for b in base_rows:
